@@ -118,7 +118,13 @@ def main():
         paths = sorted(glob.glob(VERIF + "/mutants/equiv/" + pat + ".diff"))
         with concurrent.futures.ThreadPoolExecutor(max_workers=5) as ex:
             rs = list(ex.map(equiv_variant, paths))
+        known = {}
+        kp = VERIF + "/mutants/equiv/KNOWN_ALARMS.json"
+        if os.path.exists(kp):
+            known = {e["id"] + ".diff": e["reason"] for e in json.load(open(kp))}
         for r in rs:
+            if r["status"] == "FALSE-ALARM" and r["id"] in known:
+                r["status"] = "known-limitation"
             print("equiv %-40s %s %s %s" % (r["id"], r["status"], r.get("alarms", ""), r.get("fatal", r.get("why", ""))))
         for i, a in enumerate(sys.argv):
             if a == "--json":
